@@ -335,7 +335,7 @@ class C05:
         import shutil
         import tempfile
         from .. import gen
-        from graphtage.__main__ import main as gmain
+        from ..seams import run_command
         fam = wl["family"]
         ser = {"json": lambda v: json_dumps(v), "yaml": lambda v: gen.to_yaml(_Fixed(), v),
                "plist": lambda v: gen.to_plist(None, v), "xml": lambda v: gen.xml_text(v),
@@ -365,15 +365,11 @@ class C05:
                 for h in list(root.handlers):
                     root.removeHandler(h)
                 SEAMS.clock.configure(run.get("clock", "frozen"))
+                rc, extra_err, e = run_command(["graphtage", "--no-color"] + status + opts + [pa, pb])
                 exc = None
-                rc = None
-                try:
-                    rc = gmain(["graphtage", "--no-color"] + status + opts + [pa, pb])
-                except core.RunTimeout:
-                    raise
-                except BaseException as e:
-                    if "outside-graphtage" in core.graphtage_site(e) and not isinstance(e, (SystemExit, RecursionError)):
-                        raise
+                if e is not None:
+                    if "outside-graphtage" in core.graphtage_site(e) and not isinstance(e, RecursionError):
+                        raise e
                     exc = core.graphtage_site(e)
                 outcomes.append((status, rc, exc, SEAMS.out.since(0)))
             counters["probe.macro_cli_status"] = counters.get("probe.macro_cli_status", 0) + 1
